@@ -524,11 +524,30 @@ func jobC11(c *rt.Ctx) {
 		c.Step(2)
 		bad := !bytes.Equal(o1, keep) || !bytes.Equal(o1, ref.X25519(s1, nine)) || !bytes.Equal(o2, ref.X25519(s2, nine))
 		if len(o1) == 32 {
-			o1[0] ^= 0xff
+			// the result is the caller's up to its capacity: overwrite all of it
+			full := o1[:cap(o1)]
+			for i := range full {
+				full[i] ^= 0xff
+			}
+			_ = append(o1, 1, 2, 3)
 			o3, _ := X25519(s1, pt)
-			if !bytes.Equal(o3, keep) || Basepoint[0] != 9 || s1[0] != byte(12345&0xff) {
+			if !bytes.Equal(o3, keep) || Basepoint[0] != 9 || s1[0] != byte(12345&0xff) || !bytes.Equal(o2, ref.X25519(s2, nine)) {
 				bad = true
 			}
+		}
+		// scalar and point handed over as consecutive slices of one record (spare capacity = the next field)
+		rec := append(append(append([]byte{}, s1...), le32(big.NewInt(9))...), bytes.Repeat([]byte{0xA5}, 16)...)
+		recKeep := append([]byte{}, rec...)
+		o4, e4 := X25519(rec[:32], rec[32:64])
+		c.Step(1)
+		if e4 != nil || !bytes.Equal(o4, keep) || !bytes.Equal(rec, recKeep) {
+			bad = true
+		}
+		ek, ok5 := EdPublicKeyToX25519(rec[32:64])
+		ep := EdPrivateKeyToX25519(append(append([]byte{}, rec[:32]...), rec[32:64]...))
+		_, _, _ = ek, ok5, ep
+		if !bytes.Equal(rec, recKeep) {
+			bad = true
 		}
 		if bad {
 			c.Violation("C11 result aliasing", "an X25519 result shares memory with a later result, an argument or internal state", map[string]interface{}{"fast_path": which == 0})
